@@ -63,6 +63,8 @@ HOST_SETS = (real_iptables.SET_INFRA_SVC, real_iptables.SET_VRING_CONTAINERS,
              real_iptables.SET_PROD_CONTAINERS,
              real_iptables.SET_NONPROD_CONTAINERS)
 HS_HOST = 'root.node1'
+LAYOUT_KEYS = ('apps_link', 'rules_link', 'endpoints_link', 'vipsd_link',
+               'svc_link', 'svc_vips_link', 'svc_rsrc_link', 'relative')
 
 
 def _mk_error(what):
@@ -132,7 +134,7 @@ class World:
                 'svc_restart_with_live_requests', 'svc_start_failed',
                 'stale_requests_reclaimed', 'ip_reused',
                 'id_requested_again_before_delete_processed',
-                'order_permuted_listings'), 0)
+                'order_permuted_listings', 'layout_with_symlinked_dirs'), 0)
             self.faults = dict.fromkeys((
                 'svc_killed_mid_request', 'svc_crash', 'command_failed',
                 'owner_vanished'), 0)
@@ -144,7 +146,7 @@ class World:
                 'finish_with_others_registered', 'finish_removed_entries',
                 'port_collisions', 'port_reused_after_death', 'ip_reused',
                 'drain_checks', 'same_instance_overlap',
-                'order_permuted_listings'), 0)
+                'order_permuted_listings', 'layout_with_symlinked_dirs'), 0)
             self.faults = dict.fromkeys((
                 'start_killed', 'finish_killed', 'finish_killed_then_repeated',
                 'command_failed', 'eaddrinuse'), 0)
@@ -160,18 +162,49 @@ class World:
         self.pid = netshims.FakeOsGetpid()
         # -- real environment
         tmroot = os.path.join(root, 'tm')
+        vol = os.path.join(root, 'vol')
+        lay = config.get('layout') or {}
+        self.layout = lay
+        if any(lay.values()):
+            self.probes['layout_with_symlinked_dirs'] += 1
+        os.makedirs(tmroot)
+
+        def place(path, key, target):
+            """A plain directory, or (layout) a symlink to a directory with
+            another parent at another depth."""
+            if lay.get(key):
+                target = os.path.join(vol, target)
+                os.makedirs(target)
+                os.symlink(target, path)
+            else:
+                os.makedirs(path)
+
+        place(os.path.join(tmroot, 'apps'), 'apps_link', 'a/deep/er/apps')
+        place(os.path.join(tmroot, 'rules'), 'rules_link', 'fw/rules')
+        place(os.path.join(tmroot, 'endpoints'), 'endpoints_link',
+              'ep/x/endpoints')
+        place(os.path.join(tmroot, 'vipsd'), 'vipsd_link', 'run/v/w/vipsd')
+        place(os.path.join(tmroot, 'network_svc'), 'svc_link',
+              'svc/network_svc')
+        svc_real = os.path.realpath(os.path.join(tmroot, 'network_svc'))
+        place(os.path.join(svc_real, 'vips'), 'svc_vips_link',
+              'volatile/run/vips')
+        place(os.path.join(svc_real, 'resources'), 'svc_rsrc_link',
+              'q/r/s/t/resources')
         self.tm_env = appenv_linux.LinuxAppEnvironment(tmroot)
         self.apps_dir = self.tm_env.apps_dir
         self.proc_dir = os.path.join(tmroot, 'proc')
-        for path in (self.apps_dir, self.tm_env.rules_dir, self.proc_dir):
-            os.makedirs(path)
+        os.makedirs(self.proc_dir)
         self.svc = self.tm_env.svc_network
         self.svc_dir = self.tm_env.svc_network_dir
         self.rsrc_dir = os.path.join(self.svc_dir, 'resources')
         self.vips_dir = os.path.join(self.svc_dir, 'vips')
         self.vipd_dir = os.path.join(tmroot, 'vipsd')
-        self.vipmgr = vipfile.VipMgr(config['cidr'], self.vipd_dir,
-                                     self.apps_dir)
+        vip_args = (self.vipd_dir, self.apps_dir)
+        if lay.get('relative'):
+            # VipMgr is given paths relative to the working directory
+            vip_args = tuple(os.path.relpath(p) for p in vip_args)
+        self.vipmgr = vipfile.VipMgr(config['cidr'], *vip_args)
         self.cidr = ipaddress.IPv4Network(config['cidr'])
         self.impl = None
         self.watcher = None
@@ -203,11 +236,12 @@ class World:
             self.violation = {'sig': sig, 'detail': detail, 'step': self.step}
 
     def is_live(self, owner):
-        return os.path.exists(os.path.join(self.apps_dir, owner))
+        # the harness's own knowledge of who exists - never the entry's link
+        return owner in self.owners
 
     def spec_owner_live(self, owner):
-        return (os.path.exists(os.path.join(self.apps_dir, owner)) or
-                os.path.exists(os.path.join(self.proc_dir, owner)))
+        return owner in self.owners or (
+            owner is not None and owner.isdigit() and int(owner) in self.hs)
 
     def close(self):
         self._svc_down()
@@ -840,7 +874,8 @@ class World:
             ext_device=EXT_DEV, ext_ip=EXT_IP, ext_mtu=9000, ext_speed=10000)
         watcher = None
         try:
-            impl.initialize(self.svc_dir)
+            # LinuxResourceService._run passes its realpath-resolved _dir
+            impl.initialize(self.svc._dir)
             watcher = dirwatch.DirWatcher(self.rsrc_dir)
             watcher.on_created = lambda p: self.svc._on_created(impl, p)
             watcher.on_deleted = lambda p: self.svc._on_deleted(impl, p)
@@ -1887,6 +1922,13 @@ def make_config(prop, tier, rng):
         'refinish_delay': rng.choice([0.0, 0.5, 0.85]),
         'wmul': wmul,
     }
+    # directory layout (drawn last: the other parameters of a seed are what
+    # they were before layouts existed)
+    layout = {}
+    if rng.random() < 0.6:
+        for key in LAYOUT_KEYS:
+            layout[key] = rng.random() < 0.4
+    cfg['layout'] = layout
     return cfg
 
 
@@ -1913,7 +1955,12 @@ class NetSim(enginemod.Engine):
         'treadmill.runtime.linux._run._unshare_network',
         'treadmill.runtime.linux._finish._cleanup_network (+ '
         '_cleanup_ephemeral_ports, _cleanup_exception_rules)',
-        'real directories and symlinks on a private tmpfs tree',
+        'real directories and symlinks on a private tmpfs tree; per-run '
+        'directory layout (config["layout"]): apps/, rules/, endpoints/, the '
+        'VipMgr directory, network_svc/, network_svc/vips and '
+        'network_svc/resources are each a plain directory or a symlink to a '
+        'directory with another parent at another depth; the stand-alone '
+        'VipMgr is built from absolute or working-directory-relative paths',
     )
     stub_components = (
         'LinuxResourceService._run event loop (poll/eventfd/status socket/'
@@ -1988,9 +2035,14 @@ class NetSim(enginemod.Engine):
         ]
         if prop == 'C14':
             out += [
-                'an owner exists iff its apps/<unique name> directory exists '
-                '(host services: proc/<pid>); a network request is live iff '
-                'its resources/<id> link resolves',
+                'an owner exists iff the harness created its apps/<unique '
+                'name> directory and has not removed it (host services: '
+                'proc/<pid>) - decided from the harness\'s own table, never '
+                'by following an entry\'s link; a network request is live '
+                'iff its resources/<id> link resolves',
+                'LinuxAppEnvironment is given an absolute root (a relative '
+                'approot is not a supported configuration: create_spec '
+                'stores the owner path it is given)',
                 'a request whose latest reply is an error (after an injected '
                 'netdev/ipset failure) is no longer considered to have been '
                 'told an IP',
